@@ -376,6 +376,105 @@ pub fn deep_program(kind: u8, n: u16) -> Program {
     Program { data: vec![], code }
 }
 
+/// every way a program can end: a written hlt / ret-less fall through / jump as the last instruction, followed by zero,
+/// one or two labels at the very end of the file that are (or are not) jumped to, 'start' itself last; plain and -i
+pub fn eof_programs() -> Vec<(String, Program)> {
+    let i0 = |mn: &'static str, ops: Vec<Opd>| Item::Ins(Insn::new(mn, ops));
+    let r = |x: R16| Opd::R16(x);
+    let imm = |v: u16| Opd::Imm(v, ImmKind::SW);
+    let name = |s: &str| Opd::Name(s.to_string());
+    let mut v: Vec<(String, Program)> = Vec::new();
+    for (lname, last) in [("hlt", Some("hlt")), ("nop", Some("nop")), ("stc", Some("stc")), ("none", None)] {
+        for jump in ["jmp", "je", "jne", "loop", "none"] {
+            for nlabels in [1usize, 2] {
+                let mut code: Vec<Item> = vec![Item::Label("start".into())];
+                code.push(i0("mov", vec![r(R16::AX), imm(1)]));
+                code.push(i0("mov", vec![r(R16::CX), imm(2)]));
+                code.push(i0("cmp", vec![r(R16::AX), imm(1)]));
+                if jump != "none" {
+                    code.push(i0(jump, vec![name(if nlabels == 2 { "done2" } else { "done" })]));
+                }
+                code.push(i0("add", vec![r(R16::BX), imm(5)]));
+                code.push(Item::Print(PrintStmt::Reg));
+                if let Some(l) = last {
+                    code.push(i0(l, vec![]));
+                }
+                code.push(Item::Label("done".into()));
+                if nlabels == 2 {
+                    code.push(Item::Label("done2".into()));
+                }
+                v.push((format!("last={} jump={} labels={}", lname, jump, nlabels), Program { data: vec![], code }));
+            }
+        }
+        // 'start' is the last thing in the file, behind dead code that ends in `last`
+        let mut code: Vec<Item> = vec![i0("add", vec![r(R16::BX), imm(5)])];
+        if let Some(l) = last {
+            code.push(i0(l, vec![]));
+        }
+        code.push(Item::Label("start".into()));
+        v.push((format!("last={} start-at-end", lname), Program { data: vec![], code }));
+        // a procedure whose call is the last instruction; a label behind it
+        let mut code: Vec<Item> = vec![Item::Proc { name: "f".into(), body: vec![i0("add", vec![r(R16::BX), imm(5)])] }, Item::Label("start".into())];
+        code.push(i0("call", vec![name("f")]));
+        if let Some(l) = last {
+            code.push(i0(l, vec![]));
+        }
+        code.push(i0("jmp", vec![name("tail")]));
+        code.push(i0("hlt", vec![]));
+        code.push(Item::Label("tail".into()));
+        v.push((format!("last={} call-then-jump-to-tail", lname), Program { data: vec![], code }));
+    }
+    v
+}
+
+pub fn eof_family(ctx: &Ctx, owner: &str) {
+    let progs = eof_programs();
+    let jobs: Vec<(usize, bool)> = (0..progs.len()).flat_map(|i| [(i, false), (i, true)]).collect();
+    let outcomes: Vec<CaseOutcome> = jobs
+        .par_iter()
+        .map(|(i, interpreted)| {
+            let (what, prog) = &progs[*i];
+            let rendered = render_program(prog, &Layout { choices: vec![0], comments: false, trailing_newline: *i % 2 == 0, pack_lines: false });
+            let flat = flatten(prog);
+            let image = data_image(&prog.data);
+            let lines: Vec<usize> = rendered.flat_offsets.iter().map(|o| rendered.line_of(*o)).collect();
+            let script: Vec<PromptCmd> = (0..60).map(|_| PromptCmd::Next("n".into())).collect();
+            let cfg = RunCfg { interpreted: *interpreted, script: if *interpreted { &script } else { &[] }, lines: &lines, max_steps: 1000, input_lines: None, buf_fill: None };
+            let rr = ref_run(&flat, &image, &cfg, &Quirks::none());
+            let exp = normalise(&rr.events);
+            let stdin: Vec<u8> = if *interpreted { crate::c17::script_bytes(&script[..rr.stdin_used]) } else { vec![] };
+            let out = run_cli(rendered.text.as_bytes(), if stdin.is_empty() { Stdin::Closed } else { Stdin::Data(&stdin) }, *interpreted, 1 << 20, 20_000);
+            let replay = json!({"kind":"cli","source":rendered.text,"stdin":String::from_utf8_lossy(&stdin),"interpreted":interpreted,"stdin_closed":stdin.is_empty(),
+                "expected_events": exp.iter().map(|e| format!("{:?}", e)).collect::<Vec<_>>()});
+            if matches!(out.status, Status::Timeout | Status::SpawnError(_)) {
+                return CaseOutcome::Inconclusive(format!("{}: {:?}", what, out.status));
+            }
+            if !out.clean() {
+                return CaseOutcome::Fail { key: format!("{}|eof-shapes|abnormal-exit", owner), what: format!("program ending '{}'{}: status {:?} {}", what, if *interpreted { " (-i)" } else { "" }, out.status, out.err_str().lines().next().unwrap_or("")), replay };
+            }
+            match tokenize(&out.stdout) {
+                Ok(t) if t == exp => CaseOutcome::Pass { nontrivial: true, classes: vec![format!("{}/eof-shapes", owner)], digest: fnv_str(&rendered.text) ^ *interpreted as u64 },
+                Ok(t) => CaseOutcome::Fail { key: format!("{}|eof-shapes|events", owner), what: format!("program ending '{}'{}: {}", what, if *interpreted { " (-i)" } else { "" }, crate::c17::first_diff(&exp, &t)), replay },
+                Err(e) => CaseOutcome::Fail { key: format!("{}|eof-shapes|output", owner), what: format!("program ending '{}': {}", what, e.chars().take(200).collect::<String>()), replay },
+            }
+        })
+        .collect();
+    for o in outcomes {
+        ctx.add_evals(1);
+        match o {
+            CaseOutcome::Pass { classes, digest, .. } => {
+                for c in classes {
+                    ctx.class(&c, 1);
+                }
+                ctx.nontrivial_digest(digest);
+            }
+            CaseOutcome::Fail { key, what, replay } => ctx.fail(Failure { key, what, replay }),
+            CaseOutcome::Inconclusive(w) => ctx.inconclusive(&w),
+            CaseOutcome::Known(_) => {}
+        }
+    }
+}
+
 fn deep_family(ctx: &Ctx) {
     let mut ns: Vec<u16> = vec![1, 2, 3, 100, 255, 256, 257, 300, 1000, 4000];
     if ctx.tier == Tier::Thorough {
@@ -565,6 +664,7 @@ pub fn run(ctx: &Ctx) {
         let n = ctx.tier.pick(400usize, 4_000usize);
         run_cases(ctx, "c08-cli", n, c8_s, eval_cli, |c| json!({"source": render_program(&build_program(&c.g), &Layout { choices: c.layout_choices.clone(), comments: c.comments, trailing_newline: true, pack_lines: c.pack }).text}));
         deep_family(ctx);
+        eof_family(ctx, "c08");
     } else {
         ctx.harness_error("CLI binary not built");
     }
